@@ -14,6 +14,7 @@ from vx import extract as X, dialect as D
 
 SPEC = r"""
 pub assume_specification [<Grapheme as Clone>::clone] (e: &Grapheme) -> (r: Grapheme) ensures r == *e;
+pub assume_specification [<RegExpConfig as Clone>::clone] (e: &RegExpConfig) -> (r: RegExpConfig) ensures r == *e;
 // Vec::splice(range, one element) dropped at once: the range is replaced by that element (std); specified exactly
 #[verifier::external_body] pub fn vx_splice_one(v: &mut Vec<Grapheme>, range: core::ops::Range<usize>, g: Grapheme)
     requires range.start <= range.end <= old(v)@.len()
@@ -30,14 +31,15 @@ DETECTION = r"""
 //  every range lies inside the input, and the input graphemes in the range stand for the unit repeated (end - start) / unit length times;
 //  a unit is at most half as long as the input (collect_repeated_substrings: `for j in 1..=graphemes.len() / 2`);
 //  the ranges come in descending order and do not overlap (so splicing one of them leaves the positions of all later ones untouched);
-//  the input is shorter than 2^32 graphemes (the count is cast to u32).
-pub open spec fn spells(c: (Range<usize>, Vec<String>), gs: Seq<Grapheme>) -> bool {
+//  the input is shorter than 2^32 graphemes (the count is cast to u32); every count exceeds the configured minimum of repetitions.
+pub open spec fn spells(c: (Range<usize>, Vec<String>), gs: Seq<Grapheme>, min_rep: u32) -> bool {
     c.0.start <= c.0.end <= gs.len() && c.1@.len() > 0 && 2 * c.1@.len() <= gs.len()
+    && (c.0.end - c.0.start) / (c.1@.len() as int) > min_rep          // create_ranges_of_repetitions keeps a range only if its count exceeds the minimum (closure verified in unit rep: rep_filter.strict)
     && flat(gs.subrange(c.0.start as int, c.0.end as int)) == rep(views(c.1@), ((c.0.end - c.0.start) / (c.1@.len() as int)) as nat)
 }
-pub open spec fn detection_ok(c: Seq<(Range<usize>, Vec<String>)>, gs: Seq<Grapheme>) -> bool {
+pub open spec fn detection_ok(c: Seq<(Range<usize>, Vec<String>)>, gs: Seq<Grapheme>, min_rep: u32) -> bool {
     &&& gs.len() < 0x1_0000_0000
-    &&& forall|k: int| 0 <= k < c.len() ==> spells(#[trigger] c[k], gs)
+    &&& forall|k: int| 0 <= k < c.len() ==> spells(#[trigger] c[k], gs, min_rep)
     &&& forall|k: int, l: int| 0 <= k < l < c.len() ==> (#[trigger] c[l]).0.end <= (#[trigger] c[k]).0.start
 }
 pub open spec fn untouched_below(c: Seq<(Range<usize>, Vec<String>)>, done: int, gs: Seq<Grapheme>) -> int {
@@ -48,13 +50,13 @@ pub open spec fn small(g: Grapheme, n: nat) -> bool { g.repetitions@.len() == 0 
 pub open spec fn all_small(v: Seq<Grapheme>, n: nat) -> bool { forall|k: int| 0 <= k < v.len() ==> small(#[trigger] v[k], n) }
 // the three stages of the detection are opaque; only their composition is constrained
 pub uninterp spec fn collected_from(m: HashMap<Vec<String>, Vec<usize>>, gs: Seq<Grapheme>) -> bool;
-pub uninterp spec fn ranges_from(r: Seq<(Range<usize>, Vec<String>)>, gs: Seq<Grapheme>) -> bool;
+pub uninterp spec fn ranges_from(r: Seq<(Range<usize>, Vec<String>)>, gs: Seq<Grapheme>, min_rep: u32) -> bool;
 #[verifier::external_body] pub fn collect_repeated_substrings(graphemes: &[Grapheme]) -> (r: HashMap<Vec<String>, Vec<usize>>)
     ensures collected_from(r, graphemes@) { unimplemented!() }
 #[verifier::external_body] pub fn create_ranges_of_repetitions(repeated_substrings: HashMap<Vec<String>, Vec<usize>>, config: &RegExpConfig) -> (r: Vec<(Range<usize>, Vec<String>)>)
-    ensures forall|gs: Seq<Grapheme>| #[trigger] collected_from(repeated_substrings, gs) ==> ranges_from(r@, gs) { unimplemented!() }
+    ensures forall|gs: Seq<Grapheme>| #[trigger] collected_from(repeated_substrings, gs) ==> ranges_from(r@, gs, config.minimum_repetitions) { unimplemented!() }
 #[verifier::external_body] pub fn coalesce_repetitions(ranges_of_repetitions: Vec<(Range<usize>, Vec<String>)>) -> (r: Vec<(Range<usize>, Vec<String>)>)
-    ensures forall|gs: Seq<Grapheme>| #[trigger] ranges_from(ranges_of_repetitions@, gs) && all_plain(gs) && gs.len() < 0x1_0000_0000 ==> detection_ok(r@, gs) { unimplemented!() }
+    ensures forall|gs: Seq<Grapheme>, m: u32| #[trigger] ranges_from(ranges_of_repetitions@, gs, m) && all_plain(gs) && gs.len() < 0x1_0000_0000 ==> detection_ok(r@, gs, m) { unimplemented!() }
 """
 
 SPLICE_RULE = ('R19', r'repetitions\.splice\(\s*range\.clone\(\),\s*\[(Grapheme::new\((?:[^()]|\([^()]*\))*\))\]\s*\.iter\(\)\s*\.cloned\(\),\s*\);', r'vx_splice_one(repetitions, range.clone(), \1);', 'Vec::splice(range, [g].iter().cloned()) dropped at once')
@@ -111,12 +113,12 @@ def build(repo, spec_dir, canary=False):
                   clauses=[Clause('grapheme.new', 'r.chars == chars && r.min == min && r.max == max && r.repetitions@.len() == 0', ['C13', 'C05'])])
     b.emit('}')
     b.emit('#[verifier::external_body] pub fn vx_str_to_string(s: &str) -> (r: String) ensures r@ == s@ { unimplemented!() }')
-    det = 'detection_ok(coalesced_repetitions@, graphemes@)'
+    det = 'detection_ok(coalesced_repetitions@, graphemes@, config.minimum_repetitions)'
     below = 'untouched_below(coalesced_repetitions@, it2.index@, graphemes@)'
     b.verified_fn('cluster.rs', 'replace_graphemes_with_repetitions', props=['C07'], pre=_pre_replace, extra_rules=[SPLICE_RULE],
                   requires=['old(repetitions)@.len() == 0', det, 'all_plain(graphemes@)'], decreases='graphemes@.len(), 0nat',
                   clauses=[Clause('replace.stands_for_the_same_symbols', 'coalesced_repetitions@.len() > 0 ==> deepflat(final(repetitions)@) == flat(graphemes@)', P),
-                           Clause('replace.every_unit_respects_the_minimum_length_at_every_depth', 'all_deep_ok(final(repetitions)@, *config)', ['C13']),
+                           Clause('replace.every_unit_respects_the_thresholds_at_every_depth', 'all_deep_ok(final(repetitions)@, *config)', ['C13']),
                            Clause('replace.nothing_detected_leaves_the_output_empty', 'coalesced_repetitions@.len() == 0 ==> final(repetitions)@.len() == 0', ['C05'])],
                   loops={1: ['it1.seq().len() == graphemes@.len()', 'forall|k: int| 0 <= k < it1.seq().len() ==> *#[trigger] it1.seq()[k] == graphemes@[k]',
                              ('replace.copies_input@loop1', P, 'repetitions@.len() == it1.index@ && forall|k: int| 0 <= k < repetitions@.len() ==> #[trigger] repetitions@[k] == graphemes@[k]')],
@@ -124,18 +126,18 @@ def build(repo, spec_dir, canary=False):
                              ('replace.stands_for_the_same_symbols@loop2', P, 'flat(repetitions@) == flat(graphemes@)'),
                              ('replace.earlier_positions_untouched@loop2', P, '%s <= repetitions@.len() && forall|j: int| 0 <= j < %s ==> #[trigger] repetitions@[j] == graphemes@[j]' % (below, below)),
                              ('replace.units_are_short_and_not_nested@loop2', P + ['C07'], 'all_small(repetitions@, graphemes@.len())'),
-                             ('replace.every_unit_respects_the_minimum_length@loop2', ['C13'], 'forall|k: int| 0 <= k < repetitions@.len() ==> printed_once(#[trigger] repetitions@[k]) || unit_ok(repetitions@[k], *config)')],
+                             ('replace.every_unit_respects_the_thresholds@loop2', ['C13'], 'forall|k: int| 0 <= k < repetitions@.len() ==> printed_once(#[trigger] repetitions@[k]) || unit_ok(repetitions@[k], *config)')],
                          3: ['vx_v1@.len() == vx_r2.len()', 'it3.iter.end == vx_v1@.len()', 'graphemes@.len() < 0x1_0000_0000', 'graphemes@.len() >= 2',
                              ('replace.nested_units_keep_their_symbols@loop3', P, 'forall|j: int| 0 <= j < vx_v1@.len() ==> deep(#[trigger] vx_v1@[j]) == deep(vx_r2[j])'),
-                             ('replace.every_unit_respects_the_minimum_length_at_every_depth@loop3', ['C13'], '(forall|j: int| 0 <= j < vx_k1 ==> deep_ok(#[trigger] vx_v1@[j], *config)) && (forall|j: int| vx_k1 <= j < vx_v1@.len() ==> printed_once(#[trigger] vx_v1@[j]) || unit_ok(vx_v1@[j], *config))'),
+                             ('replace.every_unit_respects_the_thresholds_at_every_depth@loop3', ['C13'], '(forall|j: int| 0 <= j < vx_k1 ==> deep_ok(#[trigger] vx_v1@[j], *config)) && (forall|j: int| vx_k1 <= j < vx_v1@.len() ==> printed_once(#[trigger] vx_v1@[j]) || unit_ok(vx_v1@[j], *config))'),
                              ('replace.units_are_short_and_not_nested@loop3', P + ['C07'], 'forall|j: int| vx_k1 <= j < vx_v1@.len() ==> small(#[trigger] vx_v1@[j], graphemes@.len())')],
                          99: [('replace.nested_units_are_rebuilt_from_plain_graphemes', P, 'true')]},
                   blocks=[(1, 'loop_after', '''    proof { assert(repetitions@ =~= graphemes@);
-        assert(spells(coalesced_repetitions@[0], graphemes@));
+        assert(spells(coalesced_repetitions@[0], graphemes@, config.minimum_repetitions));
         assert forall|k: int| 0 <= k < repetitions@.len() implies small(#[trigger] repetitions@[k], graphemes@.len()) by { assert(plain(graphemes@[k])); }
         assert forall|k: int| 0 <= k < repetitions@.len() implies printed_once(#[trigger] repetitions@[k]) by { assert(plain(graphemes@[k])); } }'''),
                           (2, 'loop_start', '''        let ghost r0 = repetitions@; let ghost kk = it2.index@;
-        proof { assert(*it2.seq()[kk] == coalesced_repetitions@[kk]); assert(spells(coalesced_repetitions@[kk], graphemes@));
+        proof { assert(*it2.seq()[kk] == coalesced_repetitions@[kk]); assert(spells(coalesced_repetitions@[kk], graphemes@, config.minimum_repetitions));
                 if kk > 0 { assert(coalesced_repetitions@[kk].0.end <= coalesced_repetitions@[kk - 1].0.start); } }'''),
                           (2, 'loop_end', '''        proof {
             let s = range.start as int; let e = range.end as int;
@@ -157,7 +159,7 @@ def build(repo, spec_dir, canary=False):
                     if k < s { assert(repetitions@[k] == r0[k]); } else if k == s { } else { assert(repetitions@[k] == r0[k - s - 1 + e]); }
                 }
             }
-        }''', ('replace.every_unit_respects_the_minimum_length@loop2', ['C13'])),
+        }''', ('replace.every_unit_respects_the_thresholds@loop2', ['C13'])),
                           (2, 'loop_after', '''    let ghost vx_r2 = repetitions@;
     proof { lemma_flat_is_deepflat(vx_r2); }'''),
                           (3, 'loop_start', '''        let ghost vx_g0 = vx_v1@[vx_k1 as int];
@@ -170,18 +172,18 @@ def build(repo, spec_dir, canary=False):
     b.verified_fn('cluster.rs', 'convert_repetitions', within=r'^fn convert_repetitions\(', props=['C07'], pre=_pre_replace,
                   requires=['old(repetitions)@.len() == 0', 'all_plain(graphemes@)', 'graphemes@.len() < 0x1_0000_0000'], decreases='graphemes@.len(), 1nat',
                   clauses=[Clause('convert.empty_or_the_same_symbols', 'final(repetitions)@.len() == 0 || deepflat(final(repetitions)@) == flat(graphemes@)', P),
-                           Clause('convert.every_unit_respects_the_minimum_length_at_every_depth', 'all_deep_ok(final(repetitions)@, *config)', ['C13'])])
+                           Clause('convert.every_unit_respects_the_thresholds_at_every_depth', 'all_deep_ok(final(repetitions)@, *config)', ['C13'])])
     b.emit("impl<'a> GraphemeCluster<'a> {")
     CL = r"^impl<'a> GraphemeCluster<'a> \{"
     b.verified_fn('cluster.rs', 'graphemes', within=CL, props=['C07'], fname='GraphemeCluster::graphemes', clauses=[Clause('cluster.graphemes', '*r == self.graphemes', P)])
     b.verified_fn('cluster.rs', 'convert_repetitions', within=CL, props=['C07'], fname='GraphemeCluster::convert_repetitions', pre=_pre_replace,
                   requires=['all_plain(old(self).graphemes@)', 'old(self).graphemes@.len() < 0x1_0000_0000'],
                   clauses=[Clause('cluster_convert.stands_for_the_same_symbols', 'deepflat(final(self).graphemes@) == deepflat(old(self).graphemes@)', P),
-                           Clause('cluster_convert.every_unit_respects_the_minimum_length_at_every_depth', 'all_deep_ok(final(self).graphemes@, *final(self).config)', ['C13']),
+                           Clause('cluster_convert.every_unit_respects_the_thresholds_at_every_depth', 'all_deep_ok(final(self).graphemes@, *final(self).config)', ['C13']),
                            Clause('cluster_convert.config_kept', 'final(self).config == old(self).config', ['C05', 'C10'])],
                   blocks=[(None, 'fn_end', '    proof { assert(no_nesting(old(self).graphemes@)) by { assert forall|k: int| 0 <= k < old(self).graphemes@.len() implies (#[trigger] old(self).graphemes@[k]).repetitions@.len() == 0 by { assert(plain(old(self).graphemes@[k])); } }; lemma_flat_is_deepflat(old(self).graphemes@); }')])
     b.emit('}')
-    b.emit('} // verus!\nimpl Clone for Grapheme { fn clone(&self) -> Self { unimplemented!() } }\nfn main() {}')
+    b.emit('} // verus!\nimpl Clone for Grapheme { fn clone(&self) -> Self { unimplemented!() } }\nimpl Clone for RegExpConfig { fn clone(&self) -> Self { unimplemented!() } }\nfn main() {}')
     b.trusted += ['ASSUMED of the unverified detection stage (collect_repeated_substrings, create_ranges_of_repetitions, coalesce_repetitions: itertools chains; external_body): for a list of plain graphemes shorter than 2^32 the composition delivers `detection_ok` -- every range lies inside the input and the graphemes in it stand for the unit repeated (end - start) / unit-length times, a unit is at most half as long as the input, the ranges arrive in descending order without overlap',
                   'Vec::splice with a one-element iterator replaces the range by that element (vx_splice_one); `.iter().map(closure).collect_vec()` applies the closure to every element in order (vx_map_strings, closure kept and checked through its own ensures); AsMut for Vec is the identity (R34)',
                   'Display for Grapheme prints `repetitions` when not empty and `chars` otherwise, followed by {min} (spec `deep`): read off grapheme.rs, verified structurally in unit render, not linked here',
